@@ -96,6 +96,7 @@ pub fn run(ctx: &mut Ctx) {
             fam::exhaustive(ctx, "clone", &cfgs, 3, false, &fam::clone_ops);
             fam::exhaustive(ctx, "lazy", &cfgs, 2, false, &fam::lazy_ops);
             fam::histories(ctx, "mixed-hist", &cfgs, &hist(thorough, true, true, true, true));
+            crate::special::c08_clone_from(ctx);
             scale(ctx);
         }
         "C08" => {
@@ -119,6 +120,7 @@ pub fn run(ctx: &mut Ctx) {
             fam::histories(ctx, "capacity-hist", &cfgs, &hist(thorough, true, true, true, false));
             crate::special::c10_amortised(ctx);
             crate::special::c10_large(ctx);
+            crate::special::c08_clone_from(ctx);
         }
         "C04" => {
             crate::special::c04(ctx);
@@ -140,6 +142,7 @@ pub fn run(ctx: &mut Ctx) {
                 fam::histories(ctx, "mixed-hist", &sub, &hist(thorough, true, true, true, true));
                 crate::special::c10_large(ctx);
                 crate::special::meta_grid(ctx);
+                crate::special::c08_clone_from(ctx);
             }
             scale(ctx);
         }
@@ -174,6 +177,7 @@ pub fn run(ctx: &mut Ctx) {
             }
             hvcore::guard::set_default_growth(hvcore::guard::Growth::Exact);
             if !stack_only {
+                crate::special::c08_clone_from(ctx);
                 crate::special::prealloc_backend(ctx);
                 crate::special::c05_live_growth(ctx);
                 scale(ctx);
@@ -212,6 +216,7 @@ pub fn run(ctx: &mut Ctx) {
             fam::histories(ctx, "mixed-hist", &cfgs, &hist(thorough, true, true, true, true));
             if ctx.sub != "light" && !ctx.tool_mode {
                 crate::special::c18_overflow(ctx);
+                crate::special::c08_clone_from(ctx);
                 crate::special::c17_builders(ctx);
                 crate::special::meta_grid(ctx);
                 scale(ctx);
@@ -238,6 +243,8 @@ pub fn run(ctx: &mut Ctx) {
                 &fam::bulk_ops,
                 1,
             );
+            // Clone::clone_from with a Clone that panics at the k-th element
+            crate::special::c08_clone_from(ctx);
         }
         "C07" => {
             fam::exhaustive(ctx, "forget", &cfgs, l, false, &fam::forget_ops);
